@@ -452,9 +452,14 @@ def run(ctx):
     ctx.check_theorems("ActsModel.Props.C16")
     n = 250 if ctx.tier == "quick" else 5000
     scs = [gen_scenario(ctx.seed, i, ctx.tier) for i in range(n)]
-    results = ctx.harness("run", [{k: v for k, v in sc.items() if k not in ("hooks", "policy")} for sc in scs])
+    def batches():
+        for lo in range(0, len(scs), 500):
+            part = scs[lo:lo + 500]
+            res = ctx.harness("run", [{k: v for k, v in sc.items() if k not in ("hooks", "policy")} for sc in part], tag="h%d" % (lo // 500))
+            for pair in zip(part, judge(ctx, part, res)):
+                yield pair
     tot = Counter()
-    for sc, (bad, stats) in zip(scs, judge(ctx, scs, results)):
+    for sc, (bad, stats) in batches():
         ctx.cov["evaluations"] += 1
         for k, v in stats.items():
             tot[k] += int(v)
